@@ -130,7 +130,7 @@ Definition NodeInv (st : store) (nd : node) : Prop :=
       end
   | PFinGet _ prevv =>
       match n_op nd with
-      | ODelete _ => aget C d = None
+      | ODelete _ => aget C d = None /\ forall e, aget (regc st) d = Some e -> rv_ver (e_cur e) = v_deleted
       | OUpdate _ _ _ => acked_state (n_op nd) st /\ exists c cf, aget C d = Some (c, cf) /\ c_ver cf <> prevv
       | _ => False
       end
@@ -535,7 +535,9 @@ Proof.
     assert (SInv st1) as HS1.
     { eapply (SInv_cfg_change st st1); eauto; [|lia]. rewrite He, Hn. cbn. right. split; [exact Hdel|]. eauto. }
     split; [exact HS1|]. split; [|reflexivity].
-    unfold NodeInv. cbn. rewrite ?Eo. cbn. auto.
+    unfold NodeInv. cbn. rewrite ?Eo. cbn. split; [reflexivity|]. split; [exact Hn|].
+    intros e0 He0. assert (regc st1 = regc st) as Er1 by (unfold regc, read_reg; now rewrite Hr).
+    rewrite Er1, He in He0. injection He0 as <-. exact Hdel.
   - (* PFinGet *)
     cbn [n_reg set_reg sn_reg] in H. fold (regc st) in H.
     assert (Fresh st (set_reg nd (read_reg st))) as HF by reflexivity.
@@ -555,11 +557,14 @@ Proof.
         -- rewrite aget_aset_eq. exists (RE (e_cur e) None), c, g. auto.
       * unfold NodeInv. cbn. rewrite ?Eo. split; [exact I | exact Hack].
     + (* delete *)
-      destruct (aget (regc st) d) as [e|] eqn:He; done_step H; (split; [exact HS|]; split; [|reflexivity]);
+      destruct HN as (HNc & HNm).
+      destruct (aget (regc st) d) as [e|] eqn:He.
+      * rewrite (HNm e eq_refl) in H. cbn in H. done_step H. split; [exact HS|]. split; [|reflexivity].
         unfold NodeInv; cbn; rewrite ?Eo; cbn.
-      * split; [reflexivity|]. split; [|split; [apply aget_adel_eq | exact HN]].
-        eapply (WriteReady_adel st (set_reg nd (read_reg st))); [exact HS | exact HF | reflexivity | exact HN | unfold wr_key; cbn; rewrite ?Eo; cbn; reflexivity].
-      * split; [exact I|]. split; [exact He | exact HN].
+        split; [reflexivity|]. split; [|split; [apply aget_adel_eq | exact HNc]].
+        eapply (WriteReady_adel st (set_reg nd (read_reg st))); [exact HS | exact HF | reflexivity | exact HNc | unfold wr_key; cbn; rewrite ?Eo; cbn; reflexivity].
+      * done_step H. split; [exact HS|]. split; [|reflexivity]. unfold NodeInv; cbn; rewrite ?Eo; cbn.
+        split; [exact I|]. split; [exact He | exact HNc].
   - (* PFinWrite *)
     destruct HN as (HW & Hop).
     destruct (write_ready _ _ HS HW) as (st1 & sn1 & Wr & HS1 & Hrd & Hcf & Hsn). rewrite Wr in H. done_step H.
